@@ -60,6 +60,9 @@ func main() {
 		if v := os.Getenv("VERIF_DIR"); v != "" {
 			verifDir = v
 		}
+		if v := os.Getenv("VERIF_REPO"); v != "" {
+			repoDir = v
+		}
 		okRun, out := nativeRun(os.Args[2], os.Args[3])
 		if okRun {
 			fmt.Println("NATIVE-OK", os.Args[2], os.Args[3])
